@@ -28,6 +28,8 @@ MonStep(m, e) ==
       [] e.ev = "BRecvDisconnect" -> [m EXCEPT !.disconnects = Append(@, e.c)]
       [] e.ev \in {"BRecvReq", "BRecvChunk", "BRecvCall", "BRecvDownAck", "BRecvMetaAck"} ->
             IF e.c \in RangeS(m.disconnects) THEN [m EXCEPT !.afterDisc = Append(@, e.ev)] ELSE m
+      \* the client handed a message other than keep-alive to the transport after its Disconnect (client-side order of the writes)
+      [] e.ev = "CliWriteAfterDisconnect" -> [m EXCEPT !.afterDisc = Append(@, e.kind)]
       [] e.ev \in {"Dial", "Token"} -> IF m.connCloseRet > 0 THEN [m EXCEPT !.dialsAfter = @ + 1] ELSE m
       [] e.ev \in {"UpClosed", "DownClosed"} -> [m EXCEPT !.closedEvs = Append(@, e.obj)]
       [] e.ev = "Disconnected" -> IF m.connCloseRet > 0 THEN [m EXCEPT !.discAfterClose = @ + 1] ELSE m
